@@ -25,6 +25,14 @@ pub fn generate_c01(tier: &str, rng: &mut Prng) -> Vec<Case> {
     let mut ops = vec![];
     let thorough = tier == "thorough";
     for n in [512usize, 1024] {
+        // keys from seeds whose candidate stream contains an f with a zero NTT slot (a key generator that lets such an f
+        // through yields keys whose signatures do not verify)
+        for ks in crate::seeds::special(n, tier, "ntt_zero", 6) {
+            for _ in 0..2 {
+                let msg = rng.bytes(16);
+                ops.push(Case::new(format!("sign {n} {} {} {}", hex(&ks), hex(&msg), rng.next() >> 1)));
+            }
+        }
         let keys = key_seeds(rng, if thorough { 8 } else { 2 });
         let per_key = if thorough { 1200 } else { 60 };
         for ks in &keys {
@@ -211,6 +219,15 @@ pub fn generate_c10(tier: &str, rng: &mut Prng) -> Vec<Case> {
         }
     }
     for n in [512usize, 1024] {
+        // keys whose Gram-Schmidt norm is next to the acceptance bound (smallest leaves): a few signatures each
+        for (kind, q) in [("gamma_below", 3), ("gamma_above", 3)] {
+            for ks in crate::seeds::special(n, tier, kind, q) {
+                for _ in 0..3 {
+                    let msg = rng.bytes(8);
+                    ops.push(Case::new(format!("sign_leaves {n} {} {} {}", hex(&ks), hex(&msg), rng.next() >> 1)));
+                }
+            }
+        }
         let keys = key_seeds(rng, if thorough { 4 } else { 2 });
         for ks in &keys {
             for _ in 0..(if thorough { 1500 } else { 60 }) {
